@@ -2,4 +2,694 @@ import ScryerModel.Model.IntRel
 /-! Helper lemmas for the integer relation builtins (C49). -/
 namespace Scryer.IntRel
 
+theorem rangeTake_zero (l u : Int) : rangeTake 0 l u = [] := by
+  simp [rangeTake]
+
+theorem betweenTake_eq (n : Nat) (l u : Int) : betweenTake n l u = rangeTake n l u := by
+  induction n generalizing l with
+  | zero => simp [betweenTake, rangeTake]
+  | succ n ih =>
+    unfold betweenTake
+    split
+    · rename_i h
+      rw [ih]
+      unfold rangeTake
+      have e : min (n + 1) (u + 1 - l).toNat = min n (u + 1 - (l + 1)).toNat + 1 := by omega
+      rw [e, List.range_succ_eq_map]
+      simp only [List.map_cons, List.map_map]
+      congr 1
+      · simp
+      · apply List.map_congr_left
+        intro i _
+        simp only [Function.comp]
+        omega
+    · split
+      · rename_i h1 h2
+        subst h2
+        unfold rangeTake
+        have e : min (n + 1) (l + 1 - l).toNat = 1 := by omega
+        rw [e]; simp [List.range_succ_eq_map]
+      · rename_i h1 h2
+        unfold rangeTake
+        have e : min (n + 1) (u + 1 - l).toNat = 0 := by omega
+        rw [e]; simp
+
+theorem betweenAll_eq_take (l u : Int) : betweenAll l u = betweenTake (u + 1 - l).toNat l u := by
+  fun_induction betweenAll l u with
+  | case1 l h ih =>
+    have e : (u + 1 - l).toNat = (u + 1 - (l + 1)).toNat + 1 := by omega
+    rw [e]; simp [betweenTake, h, ih]
+  | case2 h1 =>
+    have e : (u + 1 - u).toNat = 0 + 1 := by omega
+    rw [e]; simp [betweenTake]
+  | case3 l h1 h2 =>
+    have e : (u + 1 - l).toNat = 0 := by omega
+    rw [e]; simp [betweenTake]
+
+theorem betweenAll_eq (l u : Int) : betweenAll l u = rangeIncl l u := by
+  rw [betweenAll_eq_take, betweenTake_eq]; simp [rangeTake, rangeIncl]
+
+theorem rangeTake_eq_take (n : Nat) (l u : Int) : rangeTake n l u = (rangeIncl l u).take n := by
+  simp [rangeTake, rangeIncl, ← List.map_take, List.take_range]
+
+theorem mem_rangeIncl (l u x : Int) : x ∈ rangeIncl l u ↔ l ≤ x ∧ x ≤ u := by
+  simp only [rangeIncl, List.mem_map, List.mem_range]
+  constructor
+  · rintro ⟨i, hi, rfl⟩; omega
+  · intro h; exact ⟨(x - l).toNat, by omega, by omega⟩
+
+theorem length_rangeIncl (l u : Int) : (rangeIncl l u).length = (u + 1 - l).toNat := by
+  simp [rangeIncl]
+
+theorem rangeIncl_sorted (l u : Int) : (rangeIncl l u).Pairwise (· < ·) := by
+  unfold rangeIncl
+  rw [List.pairwise_map]
+  exact List.Pairwise.imp (fun h => by omega) List.pairwise_lt_range
+
+theorem rangeIncl_nodup (l u : Int) : (rangeIncl l u).Nodup :=
+  List.Pairwise.imp (fun h => by omega) (rangeIncl_sorted l u)
+
+
+/-! ### between/3 and succ/2 against their specifications -/
+
+theorem rangeTake_empty (n : Nat) (l u : Int) (h : u < l) : rangeTake n l u = [] := by
+  have e : min n (u + 1 - l).toNat = 0 := by omega
+  simp [rangeTake, e]
+
+theorem between_eq_spec (n : Nat) (L U X : Arg) : between n L U X = specBetween n L U X := by
+  cases L <;> cases U <;> cases X <;>
+    simp [between, specBetween, mustBeInt, canBeInt, betweenTake_eq]
+  · intro h; exact rangeTake_empty n _ _ h
+  · rename_i l u x
+    by_cases h1 : l ≤ x <;> by_cases h2 : x ≤ u <;> simp [h1, h2]
+
+theorem succ_eq_spec (n : Nat) (I S : Arg) : succ n I S = specSucc n I S := by
+  cases I <;> cases S <;> simp [succ, specSucc, canBeNlz, specNlzErr]
+  · rename_i v s
+    by_cases h : 0 ≤ s
+    · have h' : ¬ s < 0 := by omega
+      by_cases h2 : 0 < s
+      · have h3 : 1 ≤ s := by omega
+        simp [h, h', h2, h3]
+      · have h3 : ¬ 1 ≤ s := by omega
+        simp [h, h', h2, h3]
+    · have h' : s < 0 := by omega
+      simp [h, h']
+  · rename_i i v
+    by_cases h : 0 ≤ i
+    · have h' : ¬ i < 0 := by omega
+      simp [h, h']
+    · have h' : i < 0 := by omega
+      simp [h, h']
+  · rename_i i s
+    by_cases h : 0 ≤ i
+    · have h' : ¬ i < 0 := by omega
+      by_cases g : 0 ≤ s
+      · have g' : ¬ s < 0 := by omega
+        by_cases e : s = i + 1
+        · subst e
+          have e2 : 0 < i + 1 := by omega
+          simp [h, h', g, g', e2]
+        · have e1 : ¬ i = s - 1 := by omega
+          simp [h, h', g, g', e, e1]
+      · have g' : s < 0 := by omega
+        simp [h, h', g, g']
+    · have h' : i < 0 := by omega
+      simp [h, h']
+  · rename_i i k
+    by_cases h : 0 ≤ i
+    · have h' : ¬ i < 0 := by omega
+      simp [h, h']
+    · have h' : i < 0 := by omega
+      simp [h, h']
+
+
+/-! ### length/2 -/
+
+theorem freshVars_zero (f : Nat) : freshVars f 0 = [] := by simp [freshVars]
+
+theorem freshVars_succ (f k : Nat) : freshVars f (k + 1) = f :: freshVars (f + 1) k := by
+  simp only [freshVars, List.range_succ_eq_map, List.map_cons, List.map_map]
+  congr 1
+  apply List.map_congr_left
+  intro i _
+  simp only [Function.comp]; omega
+
+theorem length_freshVars (f k : Nat) : (freshVars f k).length = k := by simp [freshVars]
+
+theorem mem_freshVars (f k v : Nat) : v ∈ freshVars f k ↔ f ≤ v ∧ v < f + k := by
+  simp only [freshVars, List.mem_map, List.mem_range]
+  constructor
+  · rintro ⟨i, hi, rfl⟩; omega
+  · intro h; exact ⟨v - f, by omega, by omega⟩
+
+theorem freshVars_nodup (f k : Nat) : (freshVars f k).Nodup := by
+  unfold freshVars
+  have : ((List.range k).map (f + ·)).Pairwise (· < ·) := by
+    rw [List.pairwise_map]
+    exact List.Pairwise.imp (fun h => by omega) List.pairwise_lt_range
+  exact List.Pairwise.imp (fun h => by omega) this
+
+theorem lengthAddendum_eq (n fresh : Nat) (acc : List Nat) (m : Int) :
+    lengthAddendum n fresh acc m
+      = (List.range n).map fun (j : Nat) => (⟨m + (j : Int), acc ++ freshVars fresh j⟩ : LenAns) := by
+  induction n generalizing fresh acc m with
+  | zero => simp [lengthAddendum]
+  | succ n ih =>
+    rw [lengthAddendum, ih, List.range_succ_eq_map]
+    simp only [List.map_cons, List.map_map]
+    congr 1
+    · simp [freshVars_zero]
+    · apply List.map_congr_left
+      intro j _
+      simp only [Function.comp, freshVars_succ, LenAns.mk.injEq]
+      constructor
+      · omega
+      · simp
+
+
+theorem fitsI64_iff (i : Int) : fitsI64 i = true ↔ (-(2 ^ 63) ≤ i ∧ i < 2 ^ 63) := by
+  simp [fitsI64]
+
+theorem skip_var (p : Bool) (v : Nat) (xs : PList) :
+    skipMaxList p (.var v) xs = some (xs.k, ⟨0, xs.tail⟩) := rfl
+
+theorem skip_bad (p : Bool) (k : Nat) (xs : PList) : skipMaxList p (.bad k) xs = none := rfl
+
+theorem skip_int_small (p : Bool) (i : Int) (xs : PList) (h0 : 0 ≤ i) (h1 : i < 2 ^ 63) :
+    skipMaxList p (.int i) xs
+      = some (min i.toNat xs.k, ⟨xs.k - min i.toNat xs.k, xs.tail⟩) := by
+  have f : fitsI64 i = true := (fitsI64_iff i).2 ⟨by omega, h1⟩
+  simp [skipMaxList, f, h0]
+
+theorem skip_int_big (p : Bool) (i : Int) (xs : PList) (h1 : 2 ^ 63 ≤ i) :
+    skipMaxList p (.int i) xs = some (xs.k, ⟨0, xs.tail⟩) := by
+  have f : ¬ fitsI64 i = true := by rw [fitsI64_iff]; omega
+  have h0 : 0 ≤ i := by omega
+  simp [skipMaxList, f, h0]
+
+theorem skip_int_neg (p : Bool) (i : Int) (xs : PList) (h0 : i < 0) (hp : p = true → -(2 ^ 63) ≤ i) :
+    skipMaxList p (.int i) xs = none := by
+  have h0' : ¬ 0 ≤ i := by omega
+  by_cases f : fitsI64 i = true
+  · simp [skipMaxList, f, h0']
+  · cases p with
+    | true => exact absurd ((fitsI64_iff i).2 ⟨hp rfl, by omega⟩) f
+    | false => simp [skipMaxList, f, h0']
+
+/-- the pinned code: a negative bignum is taken for "no limit" -/
+theorem skip_int_neg_pinned (i : Int) (xs : PList) (h : i < -(2 ^ 63)) :
+    skipMaxList true (.int i) xs = some (xs.k, ⟨0, xs.tail⟩) := by
+  have f : ¬ fitsI64 i = true := by rw [fitsI64_iff]; omega
+  simp [skipMaxList, f]
+
+theorem length_eq_spec (pinned : Bool) (cap n fresh : Nat) (xs : PList) (N : Arg)
+    (hk : (xs.k : Int) < 2 ^ 63)
+    (hN : ∀ i, N = .int i →
+      (pinned = true → -(2 ^ 63) ≤ i) ∧ (∀ t, xs.tail = .var t → i - xs.k ≤ cap)) :
+    length pinned cap n fresh xs N = specLength n fresh xs N := by
+  obtain ⟨k, tail⟩ := xs
+  simp only at hk hN
+  cases N with
+  | var v =>
+    simp only [length, skip_var, specLength]
+    cases tail with
+    | nil => simp
+    | var t =>
+      simp only [PList.mk.injEq, reduceCtorEq, and_false, ↓reduceIte]
+      split
+      · rfl
+      · rw [lengthAddendum_eq]; simp
+    | nonlist => simp
+  | bad b => simp [length, skip_bad, specLength]
+  | int i =>
+    obtain ⟨hp, hc⟩ := hN i rfl
+    by_cases h0 : i < 0
+    · simp [length, skip_int_neg pinned i ⟨k, tail⟩ h0 hp, specLength, h0]
+    · by_cases h1 : i < 2 ^ 63
+      · rw [length, skip_int_small pinned i ⟨k, tail⟩ (by omega) h1]
+        simp only [specLength, h0, ↓reduceIte]
+        by_cases hik : i < k
+        · have e : min i.toNat k = i.toNat := by omega
+          have e2 : k - i.toNat = (k - i.toNat - 1) + 1 := by omega
+          simp only [e]
+          rw [e2]
+          cases tail <;> simp <;> (intro h; omega)
+        · have e : min i.toNat k = k := by omega
+          simp only [e, Nat.sub_self]
+          cases tail with
+          | nil =>
+            simp only [↓reduceIte]
+          | nonlist => simp
+          | var t =>
+            simp only [PList.mk.injEq, reduceCtorEq, and_false, ↓reduceIte, hik, lengthRundown]
+            by_cases hr : i - (k : Int) = 0
+            · simp [hr, freshVars_zero]
+            · have hr2 : ¬ i - (k : Int) < 0 := by omega
+              have hr3 : (i - (k : Int)).toNat ≤ cap := by have := hc t rfl; omega
+              simp [hr, hr2]
+              intro h; omega
+      · rw [length, skip_int_big pinned i ⟨k, tail⟩ (by omega)]
+        simp only [specLength, h0, ↓reduceIte]
+        have hik : ¬ i < k := by omega
+        cases tail with
+        | nil =>
+          simp only [↓reduceIte]
+        | nonlist => simp
+        | var t =>
+          simp only [PList.mk.injEq, reduceCtorEq, and_false, ↓reduceIte, hik, lengthRundown]
+          have hr : ¬ i - (k : Int) = 0 := by omega
+          have hr2 : ¬ i - (k : Int) < 0 := by omega
+          have hr3 : (i - (k : Int)).toNat ≤ cap := by have := hc t rfl; omega
+          simp [hr, hr2]
+          intro h; omega
+
+
+/-! ### numlist/3 -/
+
+theorem numlistBody_eq (l u : Int) (Xs : LArg) :
+    numlistBody l u Xs
+      = if l ≤ u ∧ unifyInts (rangeIncl l u) Xs = true then [(l, u, rangeIncl l u)] else [] := by
+  unfold numlistBody
+  rw [betweenAll_eq]
+  by_cases h : l ≤ u <;> by_cases g : unifyInts (rangeIncl l u) Xs = true <;> simp [h, g]
+
+theorem mem_numlistBody (l u : Int) (Xs : LArg) (t : Tuple) :
+    t ∈ numlistBody l u Xs ↔ t = (l, u, rangeIncl l u) ∧ l ≤ u ∧ unifyInts (rangeIncl l u) Xs = true := by
+  rw [numlistBody_eq]
+  split <;> simp_all
+
+theorem mem_enumerateInts (d : Nat) (i0 x : Int) (h : 0 ≤ i0) :
+    x ∈ enumerateInts d i0 ↔ (i0 ≤ x.natAbs ∧ (x.natAbs : Int) < i0 + d) := by
+  induction d generalizing i0 with
+  | zero => simp [enumerateInts]
+  | succ d ih =>
+    simp only [enumerateInts, List.mem_cons, List.mem_append]
+    rw [ih (i0 + 1) (by omega)]
+    by_cases hp : i0 > 0
+    · simp [hp]; omega
+    · simp [hp]; omega
+
+theorem enumerateInts_nodup (d : Nat) (i0 : Int) (h : 0 ≤ i0) : (enumerateInts d i0).Nodup := by
+  induction d generalizing i0 with
+  | zero => simp [enumerateInts]
+  | succ d ih =>
+    simp only [enumerateInts]
+    by_cases hp : i0 > 0
+    · simp only [hp, ↓reduceIte, List.cons_append, List.nil_append, List.nodup_cons, List.mem_cons]
+      refine ⟨?_, ?_, ih _ (by omega)⟩
+      · rw [mem_enumerateInts _ _ _ (by omega)]; omega
+      · rw [mem_enumerateInts _ _ _ (by omega)]; omega
+    · simp only [hp, ↓reduceIte, List.nil_append, List.nodup_cons]
+      refine ⟨?_, ih _ (by omega)⟩
+      rw [mem_enumerateInts _ _ _ (by omega)]; omega
+
+theorem length_enumerateInts_ge (d : Nat) (i0 : Int) : d ≤ (enumerateInts d i0).length := by
+  induction d generalizing i0 with
+  | zero => simp
+  | succ d ih =>
+    simp only [enumerateInts, List.length_cons, List.length_append]
+    have := ih (i0 + 1); omega
+
+/-- order in which `diag_nats/4` visits its states: by anti-diagonal, then by first component -/
+def diagLt (a b : Nat × Nat) : Prop :=
+  a.1 + a.2 < b.1 + b.2 ∨ (a.1 + a.2 = b.1 + b.2 ∧ a.1 < b.1)
+
+theorem diagLt_next (s : Nat × Nat) : diagLt s (diagNatsNext s) := by
+  obtain ⟨m, n⟩ := s
+  cases n with
+  | zero => simp [diagNatsNext, diagLt]
+  | succ n => simp [diagNatsNext, diagLt]; omega
+
+theorem diagLt_trans {a b c : Nat × Nat} (h1 : diagLt a b) (h2 : diagLt b c) : diagLt a c := by
+  unfold diagLt at *; omega
+
+theorem diagLt_irrefl (a : Nat × Nat) : ¬ diagLt a a := by
+  unfold diagLt; omega
+
+theorem mem_diagNats4_ge (d : Nat) (s x : Nat × Nat) (h : x ∈ diagNats4 d s) : x = s ∨ diagLt s x := by
+  induction d generalizing s with
+  | zero => simp [diagNats4] at h
+  | succ d ih =>
+    simp only [diagNats4, List.mem_cons] at h
+    rcases h with h | h
+    · exact Or.inl h
+    · rcases ih _ h with e | e
+      · exact Or.inr (e ▸ diagLt_next s)
+      · exact Or.inr (diagLt_trans (diagLt_next s) e)
+
+theorem diagNats4_nodup (d : Nat) (s : Nat × Nat) : (diagNats4 d s).Nodup := by
+  induction d generalizing s with
+  | zero => simp [diagNats4]
+  | succ d ih =>
+    simp only [diagNats4, List.nodup_cons]
+    refine ⟨fun h => ?_, ih _⟩
+    rcases mem_diagNats4_ge _ _ _ h with e | e
+    · exact diagLt_irrefl s (by have := diagLt_next s; rwa [← e] at this)
+    · exact diagLt_irrefl s (diagLt_trans (diagLt_next s) e)
+
+theorem diagNats2_nodup (d : Nat) : (diagNats2 d).Nodup := by
+  simp only [diagNats2, List.nodup_cons]
+  refine ⟨fun h => ?_, diagNats4_nodup _ _⟩
+  rcases mem_diagNats4_ge _ _ _ h with e | e
+  · simp at e
+  · simp [diagLt] at e
+
+/-- reachability along `diag_nats/4` -/
+theorem diagNats4_mono (d e : Nat) (s x : Nat × Nat) (h : x ∈ diagNats4 d s) : x ∈ diagNats4 (d + e) s := by
+  induction d generalizing s with
+  | zero => simp [diagNats4] at h
+  | succ d ih =>
+    have e1 : d + 1 + e = (d + e) + 1 := by omega
+    rw [e1]
+    simp only [diagNats4, List.mem_cons] at h ⊢
+    rcases h with h | h
+    · exact Or.inl h
+    · exact Or.inr (ih _ h)
+
+theorem diagNats4_trans (d1 d2 : Nat) (s x y : Nat × Nat) (h1 : x ∈ diagNats4 d1 s)
+    (h2 : y ∈ diagNats4 d2 x) : y ∈ diagNats4 (d1 + d2) s := by
+  induction d1 generalizing s with
+  | zero => simp [diagNats4] at h1
+  | succ d ih =>
+    have e1 : d + 1 + d2 = (d + d2) + 1 := by omega
+    simp only [diagNats4, List.mem_cons] at h1
+    rcases h1 with h | h
+    · subst h
+      have := diagNats4_mono d2 (d + 1) x y h2
+      have e2 : d2 + (d + 1) = d + 1 + d2 := by omega
+      rwa [e2] at this
+    · rw [e1]
+      simp only [diagNats4, List.mem_cons]
+      exact Or.inr (ih _ h)
+
+def Reach (s y : Nat × Nat) : Prop := ∃ d, y ∈ diagNats4 d s
+
+theorem Reach.refl (s : Nat × Nat) : Reach s s := ⟨1, by simp [diagNats4]⟩
+theorem Reach.step (s : Nat × Nat) : Reach s (diagNatsNext s) := ⟨2, by simp [diagNats4]⟩
+theorem Reach.trans {a b c : Nat × Nat} (h1 : Reach a b) (h2 : Reach b c) : Reach a c := by
+  obtain ⟨d1, h1⟩ := h1; obtain ⟨d2, h2⟩ := h2
+  exact ⟨d1 + d2, diagNats4_trans _ _ _ _ _ h1 h2⟩
+
+theorem reach_along (s m : Nat) (h : m ≤ s) : Reach (0, s) (m, s - m) := by
+  induction m with
+  | zero => exact Reach.refl _
+  | succ m ih =>
+    have h1 := ih (by omega)
+    have e : s - m = (s - (m + 1)) + 1 := by omega
+    have h2 : Reach (m, s - m) (m + 1, s - (m + 1)) := by
+      rw [e]
+      have := Reach.step (m, (s - (m + 1)) + 1)
+      simpa [diagNatsNext] using this
+    exact h1.trans h2
+
+theorem reach_diag (s : Nat) : Reach (0, 1) (0, s + 1) := by
+  induction s with
+  | zero => exact Reach.refl _
+  | succ s ih =>
+    have h1 := reach_along (s + 1) (s + 1) (by omega)
+    have h2 : Reach (s + 1, 0) (0, s + 2) := by
+      have := Reach.step (s + 1, 0)
+      simpa [diagNatsNext] using this
+    simp only [Nat.sub_self] at h1
+    exact ih.trans (h1.trans h2)
+
+theorem mem_diagNats2 (p : Nat × Nat) : ∃ d, p ∈ diagNats2 d := by
+  obtain ⟨m, n⟩ := p
+  by_cases h : m + n = 0
+  · have : m = 0 ∧ n = 0 := by omega
+    exact ⟨0, by simp [diagNats2, this.1, this.2]⟩
+  · have h1 := reach_diag (m + n - 1)
+    have h2 := reach_along (m + n) m (by omega)
+    have e1 : m + n - 1 + 1 = m + n := by omega
+    have e2 : m + n - m = n := by omega
+    rw [e1] at h1; rw [e2] at h2
+    obtain ⟨d, hd⟩ := h1.trans h2
+    exact ⟨d, by simp [diagNats2, hd]⟩
+
+
+theorem mem_diagNatsSigns (p : Nat × Nat) (q : Int × Int) :
+    q ∈ diagNatsSigns p ↔ (q.1.natAbs = p.1 ∧ q.2.natAbs = p.2) := by
+  obtain ⟨m, n⟩ := p; obtain ⟨a, b⟩ := q
+  cases m <;> cases n <;> simp [diagNatsSigns] <;> omega
+
+theorem diagNatsSigns_nodup (p : Nat × Nat) : (diagNatsSigns p).Nodup := by
+  obtain ⟨m, n⟩ := p
+  cases m <;> cases n <;> simp [diagNatsSigns] <;> omega
+
+theorem diagInts_nodup (d : Nat) : (diagInts d).Nodup := by
+  unfold diagInts List.Nodup
+  rw [List.pairwise_flatMap]
+  refine ⟨fun a _ => diagNatsSigns_nodup a, ?_⟩
+  refine List.Pairwise.imp ?_ (diagNats2_nodup d)
+  intro a b hab x hx y hy hxy
+  rw [mem_diagNatsSigns] at hx hy
+  apply hab
+  subst hxy
+  exact Prod.ext (by omega) (by omega)
+
+theorem mem_diagInts (q : Int × Int) : ∃ d, q ∈ diagInts d := by
+  obtain ⟨d, hd⟩ := mem_diagNats2 (q.1.natAbs, q.2.natAbs)
+  exact ⟨d, List.mem_flatMap.2 ⟨_, hd, (mem_diagNatsSigns _ _).2 ⟨rfl, rfl⟩⟩⟩
+
+theorem diagNats2_mono (d e : Nat) (x : Nat × Nat) (h : x ∈ diagNats2 d) : x ∈ diagNats2 (d + e) := by
+  simp only [diagNats2, List.mem_cons] at h ⊢
+  rcases h with h | h
+  · exact Or.inl h
+  · exact Or.inr (diagNats4_mono _ _ _ _ h)
+
+theorem diagInts_mono (d e : Nat) (q : Int × Int) (h : q ∈ diagInts d) : q ∈ diagInts (d + e) := by
+  obtain ⟨a, ha, hq⟩ := List.mem_flatMap.1 h
+  exact List.mem_flatMap.2 ⟨a, diagNats2_mono _ _ _ ha, hq⟩
+
+/-- at most one candidate of a duplicate-free candidate list yields an answer, and it yields at most one -/
+theorem flatMap_unique_length {α β : Type} (l : List α) (f : α → List β) (a0 : α) (hn : l.Nodup)
+    (h1 : ∀ a ∈ l, a ≠ a0 → f a = []) (h2 : (f a0).length ≤ 1) : (l.flatMap f).length ≤ 1 := by
+  induction l with
+  | nil => simp
+  | cons a l ih =>
+    rw [List.nodup_cons] at hn
+    simp only [List.flatMap_cons, List.length_append]
+    by_cases e : a = a0
+    · subst e
+      have : l.flatMap f = [] := by
+        rw [List.flatMap_eq_nil_iff]
+        intro b hb
+        exact h1 b (List.mem_cons_of_mem _ hb) (fun h => hn.1 (h ▸ hb))
+      simp [this, h2]
+    · have : f a = [] := h1 a (List.mem_cons_self ..) e
+      have := ih hn.2 (fun b hb => h1 b (List.mem_cons_of_mem _ hb))
+      simp_all
+
+theorem rangeIncl_cons (l u : Int) (h : l ≤ u) : rangeIncl l u = l :: rangeIncl (l + 1) u := by
+  rw [← betweenAll_eq, ← betweenAll_eq, betweenAll]
+  by_cases h1 : l < u
+  · simp [h1]
+  · have : l = u := by omega
+    subst this
+    have h2 : ¬ l + 1 < l := by omega
+    have h3 : ¬ l + 1 = l := by omega
+    rw [betweenAll]; simp [h2, h3]
+
+theorem numlistBody_length_le (l u : Int) (Xs : LArg) : (numlistBody l u Xs).length ≤ 1 := by
+  rw [numlistBody_eq]; split <;> simp
+
+theorem numlistBody_ints_ne_nil (l u : Int) (xs : List Int) (h : numlistBody l u (.ints xs) ≠ []) :
+    l ≤ u ∧ xs = rangeIncl l u := by
+  rw [numlistBody_eq] at h
+  split at h
+  · rename_i g; exact ⟨g.1, by simpa [unifyInts] using g.2⟩
+  · exact absurd rfl h
+
+theorem numlistFound_bound_list_le_one (fuel : Nat) (L U : Arg) (xs : List Int) :
+    (numlistFound fuel L U (.ints xs)).length ≤ 1 := by
+  have key1 : ∀ l : Int, ((enumerateInts fuel 0).flatMap fun u => numlistBody l u (.ints xs)).length ≤ 1 := by
+    intro l
+    apply flatMap_unique_length _ _ (l + xs.length - 1) (enumerateInts_nodup _ _ (by omega))
+    · intro u _ hu
+      apply Classical.byContradiction
+      intro hne
+      obtain ⟨h1, h2⟩ := numlistBody_ints_ne_nil _ _ _ hne
+      have := congrArg List.length h2
+      rw [length_rangeIncl] at this
+      omega
+    · exact numlistBody_length_le _ _ _
+  have key2 : ∀ u : Int, ((enumerateInts fuel 0).flatMap fun l => numlistBody l u (.ints xs)).length ≤ 1 := by
+    intro u
+    apply flatMap_unique_length _ _ (u + 1 - xs.length) (enumerateInts_nodup _ _ (by omega))
+    · intro l _ hl
+      apply Classical.byContradiction
+      intro hne
+      obtain ⟨h1, h2⟩ := numlistBody_ints_ne_nil _ _ _ hne
+      have := congrArg List.length h2
+      rw [length_rangeIncl] at this
+      omega
+    · exact numlistBody_length_le _ _ _
+  have key3 : ((diagInts fuel).flatMap fun p => numlistBody p.1 p.2 (.ints xs)).length ≤ 1 := by
+    apply flatMap_unique_length _ _ (xs.head?.getD 0, xs.head?.getD 0 + xs.length - 1) (diagInts_nodup _)
+    · intro p _ hp
+      apply Classical.byContradiction
+      intro hne
+      obtain ⟨h1, h2⟩ := numlistBody_ints_ne_nil _ _ _ hne
+      have hl := congrArg List.length h2
+      rw [length_rangeIncl] at hl
+      have hh : xs.head?.getD 0 = p.1 := by rw [h2, rangeIncl_cons _ _ h1]; rfl
+      apply hp
+      exact Prod.ext (by simp [hh]) (by simp [hh]; omega)
+    · exact numlistBody_length_le _ _ _
+  unfold numlistFound
+  split
+  · exact numlistBody_length_le _ _ _
+  · exact key1 _
+  · exact key2 _
+  · exact key3
+
+theorem numlist3_bound_list_hangs (fuel : Nat) (L U : Arg) (xs : List Int)
+    (hL : canBeInt L = none) (hU : canBeInt U = none) (hm : ¬ ∃ l u, L = .int l ∧ U = .int u) :
+    numlist3 2 fuel L U (.ints xs) = .hang (numlistFound fuel L U (.ints xs)) := by
+  have hlen := numlistFound_bound_list_le_one fuel L U xs
+  unfold numlist3
+  simp only [hL, hU]
+  split
+  · rename_i l u; exact absurd ⟨l, u, rfl, rfl⟩ hm
+  · have : ¬ (numlistFound fuel L U (.ints xs)).length ≥ 2 := by omega
+    simp [search, this]
+
+
+theorem numlistFound_sound (fuel : Nat) (L U : Arg) (Xs : LArg) (t : Tuple)
+    (h : t ∈ numlistFound fuel L U Xs) :
+    t.1 ≤ t.2.1 ∧ t.2.2 = rangeIncl t.1 t.2.1 ∧ unifyInts t.2.2 Xs = true ∧
+      (∀ l, L = .int l → t.1 = l) ∧ (∀ u, U = .int u → t.2.1 = u) := by
+  unfold numlistFound at h
+  split at h
+  · rw [mem_numlistBody] at h
+    obtain ⟨rfl, h1, h2⟩ := h
+    exact ⟨h1, rfl, h2, fun l e => by cases e; rfl, fun u e => by cases e; rfl⟩
+  · rename_i l hU
+    obtain ⟨u, _, hu⟩ := List.mem_flatMap.1 h
+    rw [mem_numlistBody] at hu
+    obtain ⟨rfl, h1, h2⟩ := hu
+    exact ⟨h1, rfl, h2, fun l e => by cases e; rfl, fun u' e => (hU u' e).elim⟩
+  · rename_i u hL
+    obtain ⟨l, _, hl⟩ := List.mem_flatMap.1 h
+    rw [mem_numlistBody] at hl
+    obtain ⟨rfl, h1, h2⟩ := hl
+    exact ⟨h1, rfl, h2, fun l' e => (hL l' e).elim, fun u e => by cases e; rfl⟩
+  · rename_i h1 h2 h3
+    obtain ⟨p, _, hp⟩ := List.mem_flatMap.1 h
+    rw [mem_numlistBody] at hp
+    obtain ⟨rfl, g1, g2⟩ := hp
+    refine ⟨g1, rfl, g2, fun l e => ?_, fun u e => ?_⟩
+    · exact (h1 l e).elim
+    · exact (h2 u e).elim
+
+
+theorem mem_enumerateInts_zero (fuel : Nat) (x : Int) : x ∈ enumerateInts fuel 0 ↔ x.natAbs < fuel := by
+  rw [mem_enumerateInts _ _ _ (by omega)]; omega
+
+/-- every tuple of the relation that is compatible with the arguments is found once enough levels of
+the candidate generators have been scanned, and stays found (fairness of the enumeration). -/
+theorem numlistFound_complete (L U : Arg) (Xs : LArg) (hL : canBeInt L = none) (hU : canBeInt U = none)
+    (l u : Int) (hlu : l ≤ u) (hx : unifyInts (rangeIncl l u) Xs = true)
+    (hl : ∀ l', L = .int l' → l = l') (hu : ∀ u', U = .int u' → u = u') :
+    ∃ fuel0, ∀ fuel, fuel0 ≤ fuel → (l, u, rangeIncl l u) ∈ numlistFound fuel L U Xs := by
+  have hb : (l, u, rangeIncl l u) ∈ numlistBody l u Xs := (mem_numlistBody _ _ _ _).2 ⟨rfl, hlu, hx⟩
+  cases L with
+  | bad k => simp [canBeInt] at hL
+  | int l' =>
+    have el := hl l' rfl
+    subst el
+    cases U with
+    | bad k => simp [canBeInt] at hU
+    | int u' =>
+      have eu := hu u' rfl
+      subst eu
+      exact ⟨0, fun fuel _ => by simpa [numlistFound] using hb⟩
+    | var w =>
+      refine ⟨u.natAbs + 1, fun fuel hf => ?_⟩
+      simp only [numlistFound]
+      exact List.mem_flatMap.2 ⟨u, (mem_enumerateInts_zero _ _).2 (by omega), hb⟩
+  | var v =>
+    cases U with
+    | bad k => simp [canBeInt] at hU
+    | int u' =>
+      have eu := hu u' rfl
+      subst eu
+      refine ⟨l.natAbs + 1, fun fuel hf => ?_⟩
+      simp only [numlistFound]
+      exact List.mem_flatMap.2 ⟨l, (mem_enumerateInts_zero _ _).2 (by omega), hb⟩
+    | var w =>
+      obtain ⟨d, hd⟩ := mem_diagInts (l, u)
+      refine ⟨d, fun fuel hf => ?_⟩
+      simp only [numlistFound]
+      have : (l, u) ∈ diagInts fuel := by
+        have := diagInts_mono d (fuel - d) _ hd
+        have e : d + (fuel - d) = fuel := by omega
+        rwa [e] at this
+      exact List.mem_flatMap.2 ⟨(l, u), this, hb⟩
+
+theorem numlistBody_nodup (l u : Int) (Xs : LArg) : (numlistBody l u Xs).Nodup := by
+  rw [numlistBody_eq]; split <;> simp
+
+theorem numlistFound_nodup (fuel : Nat) (L U : Arg) (Xs : LArg) : (numlistFound fuel L U Xs).Nodup := by
+  unfold numlistFound
+  split
+  · exact numlistBody_nodup _ _ _
+  · unfold List.Nodup
+    rw [List.pairwise_flatMap]
+    refine ⟨fun a _ => numlistBody_nodup _ a _, List.Pairwise.imp ?_ (enumerateInts_nodup fuel 0 (by omega))⟩
+    intro a b hab x hx y hy hxy
+    rw [mem_numlistBody] at hx hy
+    apply hab
+    have := hx.1.symm.trans (hxy.trans hy.1)
+    simpa using congrArg (fun t : Tuple => t.2.1) this
+  · unfold List.Nodup
+    rw [List.pairwise_flatMap]
+    refine ⟨fun a _ => numlistBody_nodup a _ _, List.Pairwise.imp ?_ (enumerateInts_nodup fuel 0 (by omega))⟩
+    intro a b hab x hx y hy hxy
+    rw [mem_numlistBody] at hx hy
+    apply hab
+    have := hx.1.symm.trans (hxy.trans hy.1)
+    simpa using congrArg (fun t : Tuple => t.1) this
+  · unfold List.Nodup
+    rw [List.pairwise_flatMap]
+    refine ⟨fun a _ => numlistBody_nodup _ _ _, List.Pairwise.imp ?_ (diagInts_nodup fuel)⟩
+    intro a b hab x hx y hy hxy
+    rw [mem_numlistBody] at hx hy
+    apply hab
+    have := hx.1.symm.trans (hxy.trans hy.1)
+    exact Prod.ext (by simpa using congrArg (fun t : Tuple => t.1) this)
+      (by simpa using congrArg (fun t : Tuple => t.2.1) this)
+
+
+theorem boundsOf_iff (xs : List Int) (l u : Int) :
+    boundsOf xs = some (l, u) ↔ (l ≤ u ∧ xs = rangeIncl l u) := by
+  cases xs with
+  | nil =>
+    simp only [boundsOf, reduceCtorEq, false_iff, not_and]
+    intro h e
+    have := congrArg List.length e
+    rw [length_rangeIncl] at this
+    simp at this; omega
+  | cons x t =>
+    simp only [boundsOf]
+    constructor
+    · intro h
+      split at h
+      · rename_i g
+        simp only [Option.some.injEq, Prod.mk.injEq] at h
+        obtain ⟨rfl, rfl⟩ := h
+        exact ⟨by simp only [List.length_cons]; omega, g⟩
+      · exact absurd h (by simp)
+    · rintro ⟨h1, h2⟩
+      have hl := congrArg List.length h2
+      rw [length_rangeIncl] at hl
+      have hh : x = l := by
+        have := h2
+        rw [rangeIncl_cons _ _ h1] at this
+        exact (List.cons.inj this).1
+      subst hh
+      have hu : x + ((x :: t).length : Int) - 1 = u := by omega
+      rw [hu, if_pos h2]
+
 end Scryer.IntRel
